@@ -140,14 +140,15 @@ theorem man_unmapped {c : Ctx} (h : c.supportsNamespaces = true) (e : Elem) (a p
 
 /-- Non-empty, non-`*`, mapped prefix: namespace URI and local name are compared. -/
 theorem man_ns {c : Ctx} (h : c.supportsNamespaces = true) (e : Elem) (a p u : Str)
-    (hp : p ≠ []) (hs : p ≠ "*".toStr) (hm : c.nsGet p = some u) :
+    (hp : p ≠ []) (hs : p ≠ "*".toStr) (hm : c.nsGet p = some u) (hu0 : u ≠ []) :
     matchAttributeName c e a p =
       (e.attrs.find? (fun x => x.kns == some u && localNameEq c a x)).map valOf := by
   rw [star_toStr] at hs
   simp only [matchAttributeName, h, hm, if_true, star_toStr]
   have hpe : p.isEmpty = false := by cases p <;> simp_all
   have hst : (p == [42]) = false := by simpa using hs
-  simp only [hpe, hst, Bool.not_false, if_true]
+  have hue : u.isEmpty = false := by cases u <;> simp_all
+  simp only [hpe, hst, Bool.not_false, if_true, nsFalsy_some, hue]
   congr 1
   apply find?_congr
   intro x _
@@ -158,6 +159,16 @@ theorem man_ns {c : Ctx} (h : c.supportsNamespaces = true) (e : Elem) (a p u : S
     · subst hu; simp [localNameEq, nameEq]; rfl
     · have : kn ≠ u := fun h => hu h.symm
       simp [hu, this]
+
+/-- Non-empty, non-`*` prefix mapped to the EMPTY string (fix 3a64a82): the prefix designates
+    "no namespace", the whole key is compared exactly as for `[a]` / `[|a]`. -/
+theorem man_ns_empty {c : Ctx} (h : c.supportsNamespaces = true) (e : Elem) (a p : Str)
+    (hp : p ≠ []) (hs : p ≠ "*".toStr) (hm : c.nsGet p = some []) :
+    matchAttributeName c e a p = (e.attrs.find? (fun x => nameEq c a x.key)).map valOf := by
+  rw [star_toStr] at hs
+  have hpe : p.isEmpty = false := by cases p <;> simp_all
+  have hst : (p == [42]) = false := by simpa using hs
+  simp [matchAttributeName, h, hm, hpe, hst, nameEq]
 
 /-- `*` prefix: the mapping of `*` (if any) is irrelevant. -/
 theorem man_star {c : Ctx} (h : c.supportsNamespaces = true) (e : Elem) (a : Str) :
@@ -210,14 +221,15 @@ theorem mav_unmapped {c : Ctx} (h : c.supportsNamespaces = true) (e : Elem) (a p
   simp [matchAttributeValues, h, hp, hs, hm]
 
 theorem mav_ns {c : Ctx} (h : c.supportsNamespaces = true) (e : Elem) (a p u : Str)
-    (hp : p ≠ []) (hs : p ≠ "*".toStr) (hm : c.nsGet p = some u) :
+    (hp : p ≠ []) (hs : p ≠ "*".toStr) (hm : c.nsGet p = some u) (hu0 : u ≠ []) :
     matchAttributeValues c e a p =
       (e.attrs.filter (fun x => x.kns == some u && localNameEq c a x)).map valOf := by
   rw [star_toStr] at hs
   simp only [matchAttributeValues, h, hm, if_true, star_toStr]
   have hpe : p.isEmpty = false := by cases p <;> simp_all
   have hst : (p == [42]) = false := by simpa using hs
-  simp only [hpe, hst, Bool.not_false, if_true]
+  have hue : u.isEmpty = false := by cases u <;> simp_all
+  simp only [hpe, hst, Bool.not_false, if_true, nsFalsy_some, hue]
   congr 1
   apply List.filter_congr
   intro x _
@@ -228,6 +240,16 @@ theorem mav_ns {c : Ctx} (h : c.supportsNamespaces = true) (e : Elem) (a p u : S
     · subst hu; simp [localNameEq, nameEq]; rfl
     · have : kn ≠ u := fun h => hu h.symm
       simp [hu, this]
+
+/-- Non-empty, non-`*` prefix mapped to the EMPTY string (fix 3a64a82): the prefix designates
+    "no namespace", the whole key is compared exactly as for `[a]` / `[|a]`. -/
+theorem mav_ns_empty {c : Ctx} (h : c.supportsNamespaces = true) (e : Elem) (a p : Str)
+    (hp : p ≠ []) (hs : p ≠ "*".toStr) (hm : c.nsGet p = some []) :
+    matchAttributeValues c e a p = (e.attrs.filter (fun x => nameEq c a x.key)).map valOf := by
+  rw [star_toStr] at hs
+  have hpe : p.isEmpty = false := by cases p <;> simp_all
+  have hst : (p == [42]) = false := by simpa using hs
+  simp [matchAttributeValues, h, hm, hpe, hst, nameEq]
 
 theorem mav_star {c : Ctx} (h : c.supportsNamespaces = true) (e : Elem) (a : Str) :
     matchAttributeValues c e a "*".toStr =
